@@ -39,6 +39,14 @@ func TestEntry(t *testing.T) {
 		workerMain(t)
 	case "one":
 		oneMain(t)
+	case "casehist": // development aid: print the canonical history of run VERIF_INDEX of a check
+		ck := checks[os.Getenv("VERIF_CHECK")]
+		c := caseFor(ck, verifSeed(), os.Getenv("VERIF_TIER"), int(envInt("VERIF_INDEX", 0)))
+		o := ck.Run(t, c)
+		for _, h := range o.History {
+			fmt.Println(h)
+		}
+		fmt.Println("DIGEST", o.Digest)
 	case "replay":
 		os.Exit(replayMain(t))
 	case "selftest":
@@ -740,6 +748,7 @@ func uniq(xs []string) []string {
 
 func selftestMain() int {
 	bin := os.Getenv("VERIF_BIN")
+	bins := parseBins()
 	ids := strings.Fields(strings.ReplaceAll(os.Getenv("VERIF_IDS"), ",", " "))
 	if len(ids) == 0 {
 		for id := range checkVariants {
@@ -752,8 +761,12 @@ func selftestMain() int {
 	bad := 0
 	for _, id := range ids {
 		for _, ck := range checkVariants[id] {
+			bin := bin
 			if ck.Build != "maporder" {
-				continue
+				if bins[ck.Build] == "" {
+					continue
+				}
+				bin = bins[ck.Build]
 			}
 			results := make([]map[int]string, len(reps))
 			var wg sync.WaitGroup
@@ -770,7 +783,10 @@ func selftestMain() int {
 						go func(k int) {
 							defer iw.Done()
 							cmd := exec.Command(bin, "-test.run", "^TestEntry$", "-test.timeout", "0")
-							cmd.Env = append(os.Environ(), "VERIF_MODE=worker", "VERIF_CHECK="+ck.ID+"/"+ck.Build,
+							if ck.Build == "lockstep" && gmp == "1" {
+								gmp = "2"
+							}
+							cmd.Env = append(os.Environ(), "GORACE=halt_on_error=0 log_path="+filepath.Join(os.Getenv("VERIF_DATA"), "race-selftest"), "VERIF_MODE=worker", "VERIF_CHECK="+ck.ID+"/"+ck.Build,
 								fmt.Sprintf("VERIF_WORKER=%d", k), "VERIF_NWORKERS=4", "VERIF_BUDGET_MS=600000",
 								fmt.Sprintf("VERIF_MAXRUNS=%d", nruns), "VERIF_TIER=quick", "GOMAXPROCS="+gmp, "VERIF_DIGESTS=1", "VERIF_NOSHRINK=1",
 								fmt.Sprintf("VERIF_DATA=%s", os.Getenv("VERIF_DATA")))
